@@ -33,6 +33,8 @@ ITEM_PATTERNS = [[], ["s"], ["L"], ["s", "L"], ["L", "s"], ["i", "c", "d"], ["L"
                  ["s", "x", "L", "s"], ["x", "L", "L"], ["L", "x", "s"],
                  # M: a callable with a non-const call operator which could also be printed as a value
                  ["M"], ["s", "M", "L"], ["M", "M", "d"],
+                 # a: a partly filled fixed-size character buffer
+                 ["a"], ["s", "a", "i"], ["a", "L", "a"],
                  # T: a callable that changes the runtime threshold while the statement is being evaluated
                  ["s", "T", "L", "s"], ["T", "T"], ["L", "T", "i"]]
 
@@ -50,6 +52,8 @@ def mk_items(pattern, base):
             out.append(item("c", "xyz"[(base + k) % 3]))
         elif kind == "d":
             out.append(item("d", ["1.5", "-0.25", "100", "0"][(base + k) % 4]))
+        elif kind == "a":
+            out.append(item("a", ["eth0", "n=7", "", "abc def"][(base + k) % 4]))
         elif kind == "x":
             out.append(item("x", ""))
         elif kind == "T":
@@ -130,7 +134,7 @@ def gen_log(ptag, tier, rng):
                               rng.choice([sa, (sa + 1) % 6]), rng.choice([None, "b"]),
                               mk_items([rng.choice("sLd") for _ in range(rng.below(4))], rng.below(1000))))
             else:
-                pat = [rng.choice("ssLLicdpMT") for _ in range(rng.below(6))]
+                pat = [rng.choice("ssLLicdpMTa") for _ in range(rng.below(6))]
                 n = len(pat)
                 form = rng.choice(["e", "ue"] + ["n%d" % k for k in range(n + 1)] + ["un%d" % k for k in range(n + 1)])
                 one = st(rng.below(6), rng.choice([None, "t", "T", "tag two", ""]), form, mk_items(pat, rng.below(1000)))
